@@ -19,6 +19,12 @@
 //	                        Query.Validate rejects a query): calls the client documents to
 //	                        refuse return at once, run nothing, and leave the client object
 //	                        usable - every later Subscribe / Close is judged as before.
+//	        parts "types", "content"  multi.go: the clientType ARGUMENT of Subscribe (none,
+//	                        one, several, repeated and unregistered names, per-type
+//	                        outcomes) and the CONTENT of the notifications (repeating
+//	                        paths, timestamps that go backwards, deletes) as generated
+//	                        dimensions; the application receives exactly what the
+//	                        transport handed over.
 //	half B (real transport) transport.go: the real gNMI Impl against an in-process gRPC
 //	                        server with a scripted Subscribe handler; order-only oracle.
 //	        part "real"     real.go: lifecycle sequences (Subscribe / cancel / Close on one
